@@ -65,6 +65,18 @@ PROPS["C18"] = {
     "trusted_base": TB_COMMON + ["regex and uuid crates (verdicts recorded and handed to the model)", "serde configuration deserialisation"],
     "assumptions": ["metadata keys are unique per target (HashMap)"],
 }
+PROPS["C05"] = {
+    "runner": "c05",
+    "design_ref": "DESIGN.md §6 C05",
+    "technique": "Lean 4 theorems by induction over arbitrary transport schedules for every byte-stream cipher (write_all/poll_write and poll_read stream continuity, plaintext pass-through, mid-connection switch, CFB8 dec∘enc = id for every keystream function); differential correspondence of the executable model with a Lean AES-128-CFB8 against the real CipherStream over a scripted transport",
+    "level_text": "Machine-checked proofs quantified over every cipher state machine, every plaintext and every schedule of Pending / partial / full acceptance and of read sizes: the bytes the transport accepted are one continuous encryption of exactly the plaintext reported as written and the cipher state ends at the end of that stream, across consecutive write_all calls; reads surface the continuous decryption of what the transport produced; before the switch both are the identity; CFB8 decryption inverts encryption with equal end registers. The model's poll functions are compared with the real CipherStream (driven by write_all / read / read_exact over a scripted AsyncRead+AsyncWrite) byte for byte, the ciphertext being predicted by an AES-128-CFB8 written in Lean; a third CFB8 on the raw aes block function judges the property.",
+    "level_note": "Trusted: Lean kernel; tokio's write_all/read_exact loops are modelled (writeAll/readAll) and tied by the differential runs; AES-128 in Lean validated by FIPS-197/SP800-38A vectors and differential runs, not proved; the cfb8/aes crates.",
+    "lean_modules": ["Passage.Props.C05"],
+    "cases": {"quick": 2500, "thorough": 120000},
+    "rule": "sessions of 1..6 operations (write_all of 1..600 bytes (thorough ..4096) under schedules: one byte per write, whole buffer, 1-3, 1-16, random sizes, Pending interleaved, zero-length acceptance, schedules one byte short; reads via read and read_exact over chunks of 1/16/1..80 bytes with Pending), random 16-byte secrets, switch to ciphertext at a random operation or never; non-trivial = every session; distinct = distinct request lines",
+    "trusted_base": TB_COMMON + ["AES-128 (Lean) validated by published vectors + differential runs only", "tokio write_all/read_exact loop semantics modelled"],
+    "assumptions": ["the transport reports honestly how many bytes it accepted"],
+}
 
 # properties not claimed yet (kept current; the reason is the honest status)
 NOT_YET = {f"C{i:02d}": "check not built yet in this round (planned per DESIGN.md §9); no claim is made until its check runs green" for i in range(1, 21)}
